@@ -890,11 +890,27 @@ def s_is_empty(I_, st, path, c, args, t, depth):
     return None
 
 
+RANGE_BOUND = 3
+
+
+def _range_iter(tv):
+    """Range { start, end } with a symbolic end: an iterator of unknown length, explored up to RANGE_BOUND elements"""
+    if tv[0] == "adt" and re.search(r"ops::(range::)?Range$", tv[1]) and tv[3] and len(tv[3]) == 2:
+        a, b = tv[3]
+        if a[0] == "i" and b[0] == "i":
+            return ("iter", "seq", (tuple(I(x) for x in range(a[1], min(b[1], a[1] + 64))), 0))
+        return ("iter", "urange", (_render(b), 0))
+    return None
+
+
 def s_into_iter(I_, st, path, c, args, t, depth):
     v = args[0]
     tv = _target(I_, st, v)
     if tv[0] == "iter":
         return [(st, tv)]
+    r = _range_iter(tv)
+    if r is not None:
+        return [(st, r)]
     items = _as_items(I_, st, v)
     if items is None:
         if tv[0] == "set":
@@ -907,6 +923,10 @@ def s_into_iter(I_, st, path, c, args, t, depth):
 def s_iter_adapter(kind):
     def h(I_, st, path, c, args, t, depth):
         it = _target(I_, st, args[0])
+        if it[0] != "iter":
+            r = _range_iter(it)
+            if r is not None:
+                it = r
         if it[0] != "iter":
             items = _as_items(I_, st, args[0])
             if items is None:
@@ -1008,6 +1028,15 @@ def iter_next(I_, st, it, depth):
                     sub = ("iter", "seq", (tuple(items or ()), 0))
                 out.extend(iter_next(I_, s2, ("iter", "flat", (in2, sub)), depth))
         return out
+    if k == "urange":
+        bound, n = it[2]
+        out = []
+        s_end = st.copy()
+        s_end.cond = s_end.cond + (("eq", "len(%s)" % bound, n),)
+        out.append((s_end, it, None))
+        if n < RANGE_BOUND:
+            out.append((st, ("iter", "urange", (bound, n + 1)), ("u", "idx%d" % n, "")))
+        return out
     if k == "enum":
         inner, n = it[2]
         out = []
@@ -1065,6 +1094,15 @@ def s_collect(I_, st, path, c, args, t, depth):
     for (s2, items) in drain(I_, st, it, depth):
         v = ("seq", tuple(items))
         h = ty_head(dty)
+        if h in ("std::result::Result", "core::result::Result", "std::option::Option", "core::option::Option"):
+            good = "Ok" if "Result" in h else "Some"
+            if all(x[0] == "adt" and x[2] == good and x[3] for x in items):
+                out.append((s2, adt(RESULT if good == "Ok" else OPTION, good, (("seq", tuple(x[3][0] for x in items)),))))
+                continue
+            bad_ = [x for x in items if x[0] == "adt" and x[2] in ("Err", "None")]
+            if bad_:
+                out.append((s2, bad_[0]))
+                continue
         wrapped = I_.policy.collect_into(I_, s2, h, dty, v) if hasattr(I_.policy, "collect_into") else None
         out.append((s2, wrapped if wrapped is not None else v))
     return out
